@@ -4,7 +4,8 @@ SPECIFICATION Spec
 CONSTANTS MaxT = 30
           MaxStep = 8
           MaxIv = 10
+          DynLevel = 1
           EqT = 4
-INVARIANTS C41_RangeExactlyOnce C41_RangeAligned C41_WellFormed C41_MetaCovers FunctionalFormAgrees ArithAgreesOnOutput C41_NotStuck
+INVARIANTS C41_RangeExactlyOnce C41_RangeAligned C41_WellFormed C41_MetaCovers FunctionalFormAgrees ArithAgreesOnOutput C41_NotStuck C41_DynIntervalSane
 PROPERTIES C41_Progress
 CHECK_DEADLOCK FALSE
